@@ -505,16 +505,19 @@ def pick_sites(prog, f, g, d, kinds_loc):
     kinds_loc: {kind: location string read for that kind}"""
     smap = I.stmt_node_map(g)
     # names flowing into dict/keyword values under key cores / gpus
+    # (explicit data flow only: through the loop test every list built in
+    # the loop also "depends" on the result list)
     flows = {'cores': set(), 'gpus': set()}
+    ed = _explicit_deps(d)
     for n in walk(f.node):
         if isinstance(n, ast.Dict):
             for k, v in zip(n.keys, n.values):
                 if isinstance(k, ast.Constant) and k.value in flows:
-                    flows[k.value] |= d.expr_depends(v)
+                    flows[k.value] |= ed.expr_depends(v)
         if isinstance(n, ast.Call):
             for kw in n.keywords:
                 if kw.arg in flows and dotted(n.func) in ('Slot',):
-                    flows[kw.arg] |= d.expr_depends(kw.value)
+                    flows[kw.arg] |= ed.expr_depends(kw.value)
     out = []
     for c in calls_in(f.node):
         if not (isinstance(c.func, ast.Attribute) and c.func.attr == 'append'):
@@ -1150,14 +1153,17 @@ def r01_10(prog, rep, rid='R01.10'):
             for L in loops:
                 for n in walk(L):
                     if isinstance(n, ast.Compare) and len(n.ops) == 1 and \
-                            isinstance(n.ops[0], ast.Eq):
+                            isinstance(n.ops[0], (ast.Eq, ast.NotEq)):
+                        # `==` leaves the loop on its true edge, `!=` (early
+                        # continue form) on its false edge
+                        match = 'T' if isinstance(n.ops[0], ast.Eq) else 'F'
                         sides = {unparse(n.left), unparse(n.comparators[0])}
                         if "%s['index']" % nv in sides and any(
                                 x.endswith("['node_index']") for x in sides):
                             # the match leaves the loop
                             for t in [x for x in g.nodes if x.ast is n]:
                                 for e in g.succ[t.id]:
-                                    if e.label != 'T':
+                                    if e.label != match:
                                         continue
                                     r = g.reachable(e.dst, no_back=True)
                                     if any(isinstance(g.nodes[x].ast,
@@ -1273,6 +1279,1079 @@ def r02_8(prog, rep, rid='R02.8'):
 
 
 # ------------------------------------------------------------------------------
+# forward dataflow on a cfg (helper of R01.12 / R01.13)
+#
+def _forward(g, init, node_tf, edge_tf, join, limit=20000):
+    """IN state of every cfg node reachable under the abstraction.
+    node_tf(node, state) -> state after the node; edge_tf(node, edge, state
+    after) -> state on that edge, or None when the edge is infeasible.  An
+    'exc' edge carries the state *before* the node (its effect did not
+    happen)."""
+    IN = {g.entry.id: init}
+    todo = [g.entry.id]
+    steps = 0
+    while todo:
+        steps += 1
+        if steps > limit:
+            raise AnalysisError('dataflow over %d cfg nodes does not converge'
+                                % len(g.nodes))
+        nid = todo.pop()
+        n = g.nodes[nid]
+        pre = IN[nid]
+        post = node_tf(n, pre)
+        for e in g.succ[nid]:
+            s = pre if e.label == 'exc' else edge_tf(n, e, post)
+            if s is None:
+                continue
+            if e.dst in IN:
+                j = join(IN[e.dst], s)
+                if j == IN[e.dst]:
+                    continue
+                IN[e.dst] = j
+            else:
+                IN[e.dst] = s
+            todo.append(e.dst)
+    return IN
+
+
+def _stored_names(stmt):
+    """plain names (re)bound by a simple statement"""
+    out = set()
+    if isinstance(stmt, ast.Assign):
+        for t in stmt.targets:
+            out |= set(stores_in_target(t))
+    elif isinstance(stmt, (ast.AugAssign, ast.AnnAssign)):
+        out |= set(stores_in_target(stmt.target))
+    for n in walk(stmt):
+        if isinstance(n, ast.NamedExpr):
+            out |= set(stores_in_target(n.target))
+    return out
+
+
+def _alias_names(fnode, is_src):
+    """local names all of whose bindings are plain assignments from an
+    expression accepted by is_src (x = node['lfs'])"""
+    defs, bad = {}, set()
+    for n in walk(fnode):
+        if isinstance(n, ast.Assign):
+            for t in n.targets:
+                if isinstance(t, ast.Name):
+                    defs.setdefault(t.id, []).append(n.value)
+                else:
+                    bad |= set(stores_in_target(t))
+        elif isinstance(n, (ast.AugAssign, ast.AnnAssign)):
+            bad |= set(stores_in_target(n.target))
+        elif isinstance(n, (ast.For, ast.comprehension)):
+            bad |= set(stores_in_target(n.target))
+        elif isinstance(n, ast.NamedExpr):
+            bad |= set(stores_in_target(n.target))
+        elif isinstance(n, ast.withitem) and n.optional_vars is not None:
+            bad |= set(stores_in_target(n.optional_vars))
+    return {k for k, vs in defs.items()
+            if k not in bad and all(is_src(v) for v in vs)}
+
+
+def _unwrap_num(e):
+    """strip int(..) / float(..) conversions"""
+    while isinstance(e, ast.Call) and isinstance(e.func, ast.Name) and \
+            e.func.id in ('int', 'float') and len(e.args) == 1 and \
+            not e.keywords:
+        e = e.args[0]
+    return e
+
+
+def _is_zero(e):
+    return isinstance(e, ast.Constant) and not isinstance(e.value, bool) and \
+        isinstance(e.value, (int, float)) and e.value == 0
+
+
+# ------------------------------------------------------------------------------
+# R01.12  the lfs / mem cap of the slot count cannot be bypassed
+#
+_TOP = 'TOP'         # the request of the kind is zero: nothing will be held
+
+
+class _Cap:
+    """Must-analysis "the value of this local is <= node[kind] // request" for
+    one function and one kind (lfs | mem).  State: frozenset of capped local
+    names, or _TOP on paths on which the per-slot request of the kind is known
+    to be zero / None (such a slot holds nothing of that kind)."""
+
+    def __init__(self, prog, f, kind, nodevars, avail, req, depth=0):
+        self.prog, self.f, self.kind, self.depth = prog, f, kind, depth
+        self.g = cfg_of(f)
+        self.nodevars = set(nodevars)
+        self.nodevars |= _alias_names(
+            f.node, lambda v: isinstance(v, ast.Name) and v.id in nodevars)
+        self.avail = set(avail) | _alias_names(f.node, self._avail_path)
+        self.req0 = set(req)
+        self.req = set(req) | _alias_names(
+            f.node, lambda v: isinstance(v, ast.Name) and v.id in req)
+        self.IN = None
+
+    # -- recognisers ----------------------------------------------------------
+    def _avail_path(self, e):
+        return isinstance(e, ast.Subscript) and \
+            isinstance(e.value, ast.Name) and e.value.id in self.nodevars and \
+            isinstance(e.slice, ast.Constant) and e.slice.value == self.kind
+
+    def is_avail(self, e):
+        e = _unwrap_num(e)
+        return self._avail_path(e) or (isinstance(e, ast.Name) and
+                                       e.id in self.avail)
+
+    def is_req(self, e):
+        e = _unwrap_num(e)
+        return isinstance(e, ast.Name) and e.id in self.req
+
+    def is_quotient(self, e):
+        return isinstance(e, ast.BinOp) and \
+            isinstance(e.op, (ast.FloorDiv, ast.Div)) and \
+            self.is_avail(e.left) and self.is_req(e.right)
+
+    def zero_label(self, test):
+        """label of the out-edge of a test atom on which the request of this
+        kind is zero / None, or None if the atom does not decide that"""
+        flip = False
+        while isinstance(test, ast.UnaryOp) and isinstance(test.op, ast.Not):
+            test, flip = test.operand, not flip
+        lab = None
+        if isinstance(test, ast.Name) and test.id in self.req:
+            lab = 'F'
+        elif isinstance(test, ast.Compare) and len(test.ops) == 1:
+            l, r, op = test.left, test.comparators[0], test.ops[0]
+            swap = {ast.Gt: ast.Lt, ast.Lt: ast.Gt, ast.GtE: ast.LtE,
+                    ast.LtE: ast.GtE}
+            t = type(op)
+            if self.is_req(r) and not self.is_req(l):
+                l, r, t = r, l, swap.get(t, t)
+            if self.is_req(l):
+                if _is_zero(r):
+                    lab = {ast.Gt: 'F', ast.NotEq: 'F', ast.Eq: 'T',
+                           ast.LtE: 'T'}.get(t)
+                elif isinstance(r, ast.Constant) and r.value is None:
+                    lab = {ast.Is: 'T', ast.Eq: 'T', ast.IsNot: 'F',
+                           ast.NotEq: 'F'}.get(t)
+        if lab and flip:
+            lab = 'T' if lab == 'F' else 'F'
+        return lab
+
+    def capped(self, e, S):
+        if S is _TOP:
+            return True
+        if isinstance(e, ast.Name):
+            return e.id in S
+        if _is_zero(e):
+            return True
+        if self.is_quotient(e):
+            return True
+        if isinstance(e, (ast.List, ast.Tuple)):
+            # a collection of limits: min() of it is capped
+            return any(self.capped(x, S) for x in e.elts)
+        if isinstance(e, ast.IfExp):
+            lab = self.zero_label(e.test)
+            if lab == 'F':
+                return self.capped(e.body, S)
+            if lab == 'T':
+                return self.capped(e.orelse, S)
+            return self.capped(e.body, S) and self.capped(e.orelse, S)
+        if isinstance(e, ast.Call) and not any(
+                isinstance(a, ast.Starred) for a in e.args):
+            name = call_name(e)
+            last = name.split('.')[-1]
+            if name == 'min' and not e.keywords:
+                args = e.args
+                if len(args) == 1 and isinstance(args[0], (ast.List,
+                                                           ast.Tuple)):
+                    args = args[0].elts
+                return any(self.capped(a, S) for a in args)
+            if (name in ('int', 'float') or last in ('floor', 'trunc')) and \
+                    len(e.args) == 1 and not e.keywords:
+                return self.capped(e.args[0], S)
+            return self._callee_capped(e, S)
+        return False
+
+    def _callee_capped(self, call, S):
+        """the result of a resolved helper is capped when every return of the
+        helper is, given what the arguments are in the caller"""
+        if self.depth >= 2:
+            return False
+        callee = self.prog.resolve_call(self.f, call)
+        if callee is None or callee.node is self.f.node or \
+                not isinstance(callee.node, ast.FunctionDef):
+            return False
+        params = list(callee.params)
+        static = any(dotted(d) == 'staticmethod'
+                     for d in callee.node.decorator_list)
+        if callee.cls is not None and not static and params and \
+                isinstance(call.func, ast.Attribute):
+            params = params[1:]
+        bind = dict(zip(params, call.args))
+        for kw in call.keywords:
+            if kw.arg:
+                bind[kw.arg] = kw.value
+        sub = _Cap(self.prog, callee, self.kind,
+                   {p for p, a in bind.items()
+                    if isinstance(a, ast.Name) and a.id in self.nodevars},
+                   {p for p, a in bind.items() if self.is_avail(a)},
+                   {p for p, a in bind.items() if self.is_req(a)},
+                   self.depth + 1)
+        init = frozenset(p for p, a in bind.items() if self.capped(a, S))
+        return sub.returns_capped(init)
+
+    # -- dataflow -------------------------------------------------------------
+    def _node_tf(self, n, S):
+        if n.kind == 'with':
+            names = set()
+            for i in n.ast.items:
+                if i.optional_vars is not None:
+                    names |= set(stores_in_target(i.optional_vars))
+            return self._kill(S, names)
+        if n.kind != 'stmt':
+            return S
+        a = n.ast
+        if isinstance(a, (ast.Assign, ast.AnnAssign)) and \
+                getattr(a, 'value', None) is not None:
+            c = self.capped(a.value, S)
+            tg = a.targets if isinstance(a, ast.Assign) else [a.target]
+            names = _stored_names(a)
+            for t in tg:
+                if isinstance(t, ast.Subscript) and root_name(t):
+                    names.add(root_name(t))      # limits[0] = ..
+            S = self._kill(S, names)
+            if c and S is not _TOP:
+                S = S | {t.id for t in tg if isinstance(t, ast.Name)}
+            return S
+        if isinstance(a, ast.AugAssign):
+            names = _stored_names(a)
+            if isinstance(a.op, ast.Sub) and S is not _TOP and \
+                    not (names & self.req0):
+                return S                     # a capped count stays capped
+            return self._kill(S, names)
+        if isinstance(a, ast.Delete):
+            return self._kill(S, {root_name(t) for t in a.targets} - {None})
+        if isinstance(a, ast.Expr) and isinstance(a.value, ast.Call) and \
+                isinstance(a.value.func, ast.Attribute) and \
+                isinstance(a.value.func.value, ast.Name):
+            # a list of limits (`limits.append(cap)` ... `min(limits)`): the
+            # name stands for "min() of it is capped"
+            c = a.value
+            L, meth = c.func.value.id, c.func.attr
+            if meth in ('append', 'add') and len(c.args) == 1 and \
+                    self.capped(c.args[0], S):
+                S = self._kill(S, _stored_names(a))
+                return S if S is _TOP else S | {L}
+            if meth == 'extend' and len(c.args) == 1 and \
+                    isinstance(c.args[0], (ast.List, ast.Tuple)) and \
+                    any(self.capped(x, S) for x in c.args[0].elts):
+                S = self._kill(S, _stored_names(a))
+                return S if S is _TOP else S | {L}
+            if meth in ('pop', 'remove', 'clear', 'discard', '__delitem__',
+                        '__setitem__'):
+                S = self._kill(S, {L})
+        return self._kill(S, _stored_names(a))
+
+    def _kill(self, S, names):
+        if not names:
+            return S
+        if S is _TOP:
+            # the request itself is re-bound: what was known about it is gone
+            return frozenset() if names & self.req else _TOP
+        return S - names
+
+    def _edge_tf(self, n, e, S):
+        if n.kind == 'test' and e.label in ('T', 'F') and \
+                self.zero_label(n.ast) == e.label:
+            return _TOP
+        if n.kind == 'for' and e.label == 'iter':
+            return self._kill(S, set(stores_in_target(n.ast.target)))
+        return S
+
+    @staticmethod
+    def _join(a, b):
+        if a is _TOP:
+            return b
+        if b is _TOP:
+            return a
+        return a & b
+
+    def run(self, init=frozenset()):
+        if self.IN is None:
+            self.IN = _forward(self.g, init, self._node_tf, self._edge_tf,
+                               self._join)
+        return self.IN
+
+    def returns_capped(self, init):
+        IN = self.run(init)
+        rets = [n for n in self.g.nodes if n.kind == 'stmt' and
+                isinstance(n.ast, ast.Return) and n.id in IN]
+        return bool(rets) and all(
+            n.ast.value is not None and self.capped(n.ast.value, IN[n.id])
+            for n in rets)
+
+    def reads_capped(self, expr, S):
+        return any(self.capped(x, S) for x in walk(expr)
+                   if isinstance(x, (ast.Name, ast.Call, ast.BinOp)))
+
+    def cap_statements(self):
+        """cfg nodes that compute node[kind] // request"""
+        return [n for n in self.g.stmt_nodes() if n.kind == 'stmt' and any(
+            self.is_quotient(x) for x in walk(n.ast))]
+
+
+def _request_params(f, d, kind, nodevar):
+    """parameters of the per-node search that end up as the `kind` amount of
+    a slot it builds ({'lfs': lfs_per_slot, ..} / Slot(lfs=..))"""
+    ed = _explicit_deps(d)
+    vals = []
+    for n in walk(f.node):
+        if isinstance(n, ast.Dict):
+            for k, v in zip(n.keys, n.values):
+                if isinstance(k, ast.Constant) and k.value == kind:
+                    vals.append(v)
+        elif isinstance(n, ast.Call):
+            for kw in n.keywords:
+                if kw.arg == kind:
+                    vals.append(kw.value)
+        elif isinstance(n, ast.Assign):
+            for t in n.targets:
+                if isinstance(t, ast.Subscript) and \
+                        isinstance(t.slice, ast.Constant) and \
+                        t.slice.value == kind and root_name(t) != nodevar:
+                    vals.append(n.value)
+    params = set(f.params) - {'self', 'cls', nodevar}
+    out = set()
+    for v in vals:
+        out |= {x for x in ed.expr_depends(v) if x in params}
+    return out
+
+
+def r01_12(prog, rep, rid='R01.12'):
+    rep.rule(rid, 'in _find_resources the number of slots collected on a node '
+             "is capped by the node's free lfs / mem on every path on which "
+             'the per-slot request of that kind is non-zero (only a test of '
+             'the request itself may bypass the cap)', minimum=4)
+    base, classes = sched_classes(prog)
+    for K in classes:
+        f, g, d, nodevar, res, appends = find_resources_info(prog, K)
+        rep.saw(f)
+        ctl = controlling(g, [a.id for a in appends])
+        heads = set()
+        for a in appends:
+            heads |= set(a.loops)
+        per_iter = [n for n, lab in ctl if not heads or n.id in heads or
+                    any(n.id in g.loop_body[h] for h in heads)]
+        for kind in ('lfs', 'mem'):
+            req = _request_params(f, d, kind, nodevar)
+            if not req:
+                raise AnalysisError(
+                    'UNRECOGNISED-IDIOM %s: no parameter flows into the %r '
+                    'amount of the slots built here' % (f.where, kind))
+            cx = _Cap(prog, f, kind, {nodevar}, set(), req)
+            IN = cx.run()
+            okc = False
+            for n in per_iter:
+                if n.id not in IN:
+                    continue
+                expr = n.ast.iter if n.kind == 'for' else n.ast
+                if cx.reads_capped(expr, IN[n.id]):
+                    okc = True
+            what = ("%s: the loop that collects slots is bounded by "
+                    "%s[%r] // %s unless %s is zero"
+                    % (K.name, nodevar, kind, '/'.join(sorted(req)),
+                       '/'.join(sorted(req))))
+            if okc:
+                rep.ok(rid, f, what, f.loc())
+                continue
+            caps = cx.cap_statements()
+            if not caps:
+                # no quotient in this function: either the kind is not tested
+                # at all (R01.4 reports that) or the test has a shape this
+                # rule does not know
+                _, tst, _ = tested_kinds(prog, K)
+                if kind in tst:
+                    raise AnalysisError(
+                        "UNRECOGNISED-IDIOM %s: %s[%r] limits the search but "
+                        "not as a cap `%s[%r] // <request>` of the slot count"
+                        % (f.where, nodevar, kind, nodevar, kind))
+            foreign = []
+            for c in caps:
+                for tid, lab in guards(g, c.id):
+                    z = cx.zero_label(g.nodes[tid].ast)
+                    if z is None or z == lab:
+                        foreign.append((g.nodes[tid].ast, lab))
+            if foreign:
+                why = 'the cap is applied only when %s' % ' and '.join(
+                    '`%s` is %s' % (short(a, 50),
+                                    'true' if lab == 'T' else 'false')
+                    for a, lab in foreign[:3])
+            elif caps:
+                why = ('the capped count does not reach the test of the '
+                       'collecting loop (overwritten, or the loop is bounded '
+                       'by something else)')
+            else:
+                why = 'no statement computes %s[%r] // %s' % (
+                    nodevar, kind, '/'.join(sorted(req)))
+            loc = f.loc(caps[0].ast) if caps else f.loc()
+            rep.bad(rid, f, '%s:%s:cap' % (K.name, kind),
+                    "%s._find_resources: a request with %s > 0 can reach the "
+                    "slot-collecting loop without the slot count being capped "
+                    "by the node's free %s (%s[%r] // %s): %s.  %s[%r] is "
+                    "the *remaining* amount (debited by _change_slot_states), "
+                    "so every value of it - also 0 - must limit the search"
+                    % (K.name, '/'.join(sorted(req)), kind, nodevar, kind,
+                       '/'.join(sorted(req)), why, nodevar, kind), loc,
+                    history="one node with %s 1024: task A (2 ranks x 512) is "
+                    "placed, the node's free %s is exactly 0; task B (1 rank "
+                    "x 256) arrives: the cap is skipped, a slot with %s=256 "
+                    "is granted and _change_slot_states debits the node to "
+                    "-256 (1280 held on a 1024 node)" % (kind, kind, kind))
+
+
+# ------------------------------------------------------------------------------
+# R01.13  the DOWN marker survives the conversion of a node dict into a Node
+#
+_BOT   = ('bot',)       # no value yet (empty list literal)
+_UNK   = ('unk',)       # unknown, not derived from a node-list entry
+_UNKT  = ('unk+',)      # unknown, derived from a DOWN node-list entry
+_NUM   = ('num',)       # some number (not None)
+_RAISE = ('raise',)     # the evaluation raises
+_PARAM = ('param',)     # a parameter: possibly the caller's node dict
+_NODE_LISTS = ('cores', 'gpus')
+
+
+class _Marker:
+    """Abstract evaluation of the methods of resource_config.Node for the
+    case that an entry of the caller's node dict lists ('cores' / 'gpus') is
+    the DOWN marker.  Values: ('down', key) the marker as found in the list
+    `key`; ('c', v) a known constant; ('ct', v, key) a known constant that
+    was chosen because an entry of list `key` is DOWN (`o or 0`, a default
+    assigned under `if o is None`); ('list', elem); ('seq', (elems..)) an
+    iterable of tuples; ('tup', (vals..)); _NUM, _PARAM, _UNK, _UNKT, _RAISE.
+    Every RO(.., occupation=E) construction whose E is computed from a DOWN
+    entry is recorded with the value of E."""
+
+    def __init__(self, prog, ro_cls, down):
+        self.prog, self.ro_cls, self.down = prog, ro_cls, down
+        self.sites = {}            # id(call) -> [func, call, key, [values]]
+        self._li = {}
+        self.record = False
+        self.touched = None
+        self.kids = set()
+        self.stack = []
+
+    # -- values ---------------------------------------------------------------
+    def is_down(self, v):
+        return v[0] == 'down' or (v[0] in ('c', 'ct') and
+                                  self._same(v[1], self.down))
+
+    @staticmethod
+    def _same(a, b):
+        if a is None or b is None:
+            return a is b
+        return type(a) is type(b) and a == b
+
+    @staticmethod
+    def tainted(v):
+        return v[0] in ('down', 'ct') or v == _UNKT
+
+    def pyval(self, v):
+        """(known, python value)"""
+        if v[0] == 'down':
+            return True, self.down
+        if v[0] in ('c', 'ct'):
+            return True, v[1]
+        return False, None
+
+    def truth(self, v):
+        k, x = self.pyval(v)
+        if k:
+            try:
+                return bool(x)
+            except Exception:
+                return None
+        return None
+
+    def join(self, a, b):
+        if a == b:
+            return a
+        if a == _BOT:
+            return b
+        if b == _BOT:
+            return a
+        if a == _RAISE:
+            return b
+        if b == _RAISE:
+            return a
+        if a[0] == 'down' and b[0] == 'down':
+            return ('down', '*')
+        if a[0] in ('c', 'ct') and b[0] in ('c', 'ct') and \
+                self._same(a[1], b[1]):
+            return a if a[0] == 'ct' else b
+        if a[0] == 'list' and b[0] == 'list':
+            return ('list', self.join(a[1], b[1]))
+        if a[0] in ('tup', 'seq') and a[0] == b[0] and len(a[1]) == len(b[1]):
+            return (a[0], tuple(self.join(x, y) for x, y in zip(a[1], b[1])))
+        if self.tainted(a) or self.tainted(b) or self._deep_taint(a) or \
+                self._deep_taint(b):
+            return _UNKT
+        return _UNK
+
+    def _deep_taint(self, v):
+        if self.tainted(v):
+            return True
+        if v[0] == 'list':
+            return self._deep_taint(v[1])
+        if v[0] in ('tup', 'seq'):
+            return any(self._deep_taint(x) for x in v[1])
+        return False
+
+    def join_env(self, a, b):
+        if a == b:
+            return a
+        out = {}
+        for k in set(a) | set(b):
+            if k == '$pc':
+                # branches decided by a DOWN entry end where paths merge
+                if a.get(k) == b.get(k):
+                    out[k] = a[k]
+                continue
+            if k in a and k in b:
+                out[k] = self.join(a[k], b[k])
+            else:
+                out[k] = self.join(a.get(k, _UNK), b.get(k, _UNK))
+        return out
+
+    def elem(self, v):
+        """value of one element when iterating v"""
+        if v[0] == 'list':
+            return v[1]
+        if v[0] == 'seq':
+            return ('tup', v[1])
+        if v[0] == 'tup':
+            out = _BOT
+            for x in v[1]:
+                out = self.join(out, x)
+            return out
+        return _UNKT if self._deep_taint(v) else _UNK
+
+    def _see(self, v):
+        if self.touched is not None:
+            if v[0] == 'down':
+                self.touched.add(v[1])
+            elif v[0] == 'ct':
+                self.touched.add(v[2])
+        return v
+
+    # -- expressions ----------------------------------------------------------
+    def ev(self, f, e, env):
+        m = getattr(self, '_e_' + type(e).__name__, None)
+        outer, self.kids = self.kids, set()
+        if m is None:
+            vals = [self.ev(f, c, env) for c in ast.iter_child_nodes(e)
+                    if isinstance(c, ast.expr)]
+            v = _UNKT if any(self._deep_taint(v) for v in vals) else _UNK
+        else:
+            v = m(f, e, env)
+        kids = self.kids
+        # a constant computed from (selected by) a DOWN entry stays traceable
+        if v[0] == 'c' and kids and not isinstance(e, (ast.Constant, ast.Name,
+                                                       ast.Attribute)):
+            v = ('ct', v[1], '/'.join(sorted(kids)))
+        if v[0] == 'down':
+            kids = kids | {v[1]}
+        elif v[0] == 'ct':
+            kids = kids | set(v[2].split('/'))
+        self.kids = outer | kids
+        return self._see(v)
+
+    def _e_Constant(self, f, e, env):
+        return ('c', e.value)
+
+    def _e_Name(self, f, e, env):
+        if e.id in env:
+            return env[e.id]
+        v = self.prog.fold(f.module, e, f.cls)
+        return ('c', v) if v is not UNKNOWN else _UNK
+
+    def _e_Attribute(self, f, e, env):
+        v = self.prog.fold(f.module, e, f.cls)
+        if v is not UNKNOWN:
+            return ('c', v)
+        b = self.ev(f, e.value, env)
+        if self.is_down(b) and self.down is None:
+            return _RAISE
+        return _UNKT if self.tainted(b) else _UNK
+
+    def _node_list(self, key):
+        if isinstance(key, ast.Constant) and key.value in _NODE_LISTS:
+            return ('list', ('down', key.value))
+        return None
+
+    def _e_Subscript(self, f, e, env):
+        b = self.ev(f, e.value, env)
+        if isinstance(e.slice, ast.Slice):
+            for x in (e.slice.lower, e.slice.upper, e.slice.step):
+                if x is not None:
+                    self.ev(f, x, env)
+            return b if b[0] == 'list' else (
+                _UNKT if self._deep_taint(b) else _UNK)
+        i = self.ev(f, e.slice, env)
+        if b == _PARAM:
+            return self._node_list(e.slice) or _UNK
+        if b[0] == 'list':
+            return b[1]
+        if b[0] == 'tup':
+            k, x = self.pyval(i)
+            if k and isinstance(x, int) and -len(b[1]) <= x < len(b[1]):
+                return b[1][x]
+            return self.elem(b)
+        if self.is_down(b) and self.down is None:
+            return _RAISE
+        return _UNKT if self._deep_taint(b) else _UNK
+
+    def _e_List(self, f, e, env):
+        out = _BOT
+        for x in e.elts:
+            out = self.join(out, self.ev(f, x, env))
+        return ('list', out)
+
+    def _e_Tuple(self, f, e, env):
+        return ('tup', tuple(self.ev(f, x, env) for x in e.elts))
+
+    def _e_BoolOp(self, f, e, env):
+        out = _BOT
+        is_or = isinstance(e.op, ast.Or)
+        for i, x in enumerate(e.values):
+            v = self.ev(f, x, env)
+            if v == _RAISE:
+                return v if out == _BOT else out
+            if i == len(e.values) - 1:
+                return self.join(out, v)
+            t = self.truth(v)
+            if t is None:
+                out = self.join(out, v)      # may be the result, may go on
+            elif t == is_or:
+                return self.join(out, v)     # short circuit
+        return out
+
+    def _e_UnaryOp(self, f, e, env):
+        v = self.ev(f, e.operand, env)
+        if isinstance(e.op, ast.Not):
+            t = self.truth(v)
+            if t is not None:
+                return ('c', not t)
+            return _UNKT if self.tainted(v) else _UNK
+        k, x = self.pyval(v)
+        if k:
+            try:
+                return ('c', -x if isinstance(e.op, ast.USub) else +x)
+            except Exception:
+                return _RAISE
+        return v if v in (_NUM, _UNKT) else _UNK
+
+    def _e_BinOp(self, f, e, env):
+        l = self.ev(f, e.left, env)
+        r = self.ev(f, e.right, env)
+        if _RAISE in (l, r):
+            return _RAISE
+        kl, xl = self.pyval(l)
+        kr, xr = self.pyval(r)
+        if (kl and xl is None) or (kr and xr is None):
+            return _RAISE                     # arithmetic on None
+        if kl and kr:
+            v = self.prog.fold(f.module, ast.BinOp(
+                left=ast.Constant(value=xl), op=e.op,
+                right=ast.Constant(value=xr)))
+            if v is not UNKNOWN:
+                return ('c', v)
+        if self._deep_taint(l) or self._deep_taint(r):
+            return _UNKT
+        return _NUM if l[0] in ('c', 'ct', 'num') and \
+            r[0] in ('c', 'ct', 'num') else _UNK
+
+    def _e_IfExp(self, f, e, env):
+        t = self.truth(self.ev(f, e.test, env))
+        if t is True:
+            return self.ev(f, e.body, env)
+        if t is False:
+            return self.ev(f, e.orelse, env)
+        return self.join(self.ev(f, e.body, env), self.ev(f, e.orelse, env))
+
+    def _e_Compare(self, f, e, env):
+        vals = [self.ev(f, e.left, env)] + [self.ev(f, c, env)
+                                            for c in e.comparators]
+        taint = any(self._deep_taint(v) for v in vals)
+        if len(e.ops) != 1:
+            return _UNKT if taint else _UNK
+        l, r, op = vals[0], vals[1], e.ops[0]
+        if _RAISE in (l, r):
+            return _RAISE
+        kl, xl = self.pyval(l)
+        kr, xr = self.pyval(r)
+        if isinstance(op, (ast.Is, ast.IsNot, ast.Eq, ast.NotEq)):
+            res = None
+            if kl and kr:
+                if isinstance(op, (ast.Is, ast.IsNot)):
+                    res = self._same(xl, xr)
+                else:
+                    try:
+                        res = bool(xl == xr)
+                    except Exception:
+                        res = None
+            elif (kl and xl is None and r[0] in ('num', 'list', 'tup')) or \
+                    (kr and xr is None and l[0] in ('num', 'list', 'tup')):
+                res = False
+            if res is not None:
+                return ('c', res if isinstance(op, (ast.Is, ast.Eq))
+                        else not res)
+        elif isinstance(op, (ast.In, ast.NotIn)):
+            if kl and r[0] in ('tup',) and all(self.pyval(x)[0]
+                                              for x in r[1]):
+                res = any(self._same(xl, self.pyval(x)[1]) or
+                          (xl is not None and xl == self.pyval(x)[1])
+                          for x in r[1])
+                return ('c', res if isinstance(op, ast.In) else not res)
+        else:
+            if (kl and xl is None) or (kr and xr is None):
+                return _RAISE                 # ordering None
+            if kl and kr:
+                try:
+                    res = {ast.Lt: xl < xr, ast.LtE: xl <= xr,
+                           ast.Gt: xl > xr, ast.GtE: xl >= xr}[type(op)]
+                    return ('c', bool(res))
+                except Exception:
+                    pass
+        return _UNKT if taint else _UNK
+
+    def _comp(self, f, e, env, elts):
+        """comprehension: value of the element expression(s) over one
+        abstract iteration; BOT when a filter is known to reject it"""
+        env = dict(env)
+        for gen in e.generators:
+            it = self.ev(f, gen.iter, env)
+            self.bind(gen.target, self.elem(it), env)
+            for c in gen.ifs:
+                if self.truth(self.ev(f, c, env)) is False:
+                    return None
+        return [self.ev(f, x, env) for x in elts]
+
+    def _e_ListComp(self, f, e, env):
+        r = self._comp(f, e, env, [e.elt])
+        return ('list', r[0] if r else _BOT)
+
+    _e_GeneratorExp = _e_ListComp
+    _e_SetComp = _e_ListComp
+
+    def _e_DictComp(self, f, e, env):
+        r = self._comp(f, e, env, [e.key, e.value])
+        return _UNKT if r and any(self._deep_taint(v) for v in r) else _UNK
+
+    def _e_NamedExpr(self, f, e, env):
+        v = self.ev(f, e.value, env)
+        self.bind(e.target, v, env)
+        return v
+
+    def _e_Call(self, f, e, env):
+        args = [self.ev(f, a.value if isinstance(a, ast.Starred) else a, env)
+                for a in e.args]
+        kws = {k.arg: self.ev(f, k.value, env) for k in e.keywords}
+        allv = args + list(kws.values())
+        taint = any(self._deep_taint(v) for v in allv)
+        fn = e.func
+        name = dotted(fn)
+        # the conversion we look for
+        if self._is_ro(f, fn):
+            self._ro_site(f, e, env)
+            return _UNK
+        if isinstance(fn, ast.Attribute):
+            recv = self.ev(f, fn.value, env)
+            if fn.attr == 'get' and recv == _PARAM and e.args:
+                return self._node_list(e.args[0]) or _UNK
+            if fn.attr == 'copy' and recv[0] == 'list':
+                return recv
+            if self._deep_taint(recv):
+                taint = True
+        if isinstance(fn, ast.Name) and fn.id not in env and not e.keywords:
+            b = fn.id
+            if b in ('list', 'tuple', 'sorted', 'reversed', 'iter') and \
+                    len(args) == 1 and args[0][0] in ('list', 'seq'):
+                return args[0]
+            if b == 'enumerate' and args:
+                return ('seq', (_NUM, self.elem(args[0])))
+            if b == 'zip' and args:
+                return ('seq', tuple(self.elem(a) for a in args))
+            if b == 'range':
+                return ('list', _NUM)
+            if b == 'len':
+                return _NUM
+            if b == 'bool' and len(args) == 1:
+                t = self.truth(args[0])
+                return ('c', t) if t is not None else (
+                    _UNKT if taint else _UNK)
+            if b in ('float', 'int', 'abs', 'round') and len(args) == 1:
+                a = args[0]
+                if a == _RAISE:
+                    return a
+                k, x = self.pyval(a)
+                if k:
+                    try:
+                        return ('c', {'float': float, 'int': int, 'abs': abs,
+                                      'round': round}[b](x))
+                    except Exception:
+                        return _RAISE
+                return a if a in (_NUM, _UNKT) else _UNK
+            if b in ('min', 'max') and any(
+                    self.pyval(a) == (True, None) for a in args):
+                return _RAISE
+            if b == 'isinstance' and len(args) == 2:
+                k, x = self.pyval(args[0])
+                if k and x is None:
+                    ts = e.args[1].elts if isinstance(e.args[1], ast.Tuple) \
+                        else [e.args[1]]
+                    if all(isinstance(t, ast.Name) and t.id in (
+                            'int', 'float', 'str', 'bool', 'list', 'dict',
+                            'tuple', 'set', 'bytes', 'complex') or
+                           self._is_class(f, t) for t in ts):
+                        return ('c', False)
+        # a helper of the package: evaluate it with these arguments
+        callee = self.prog.resolve_call(f, e)
+        if callee is not None and isinstance(callee.node, ast.FunctionDef) \
+                and len(self.stack) < 3 and callee.node not in [
+                    s.node for s in self.stack] and not any(
+                    isinstance(a, ast.Starred) for a in e.args) and \
+                (taint or _PARAM in allv or any(
+                    self._deep_param(v) for v in allv)):
+            params = list(callee.params)
+            static = any(dotted(d) == 'staticmethod'
+                         for d in callee.node.decorator_list)
+            if callee.cls is not None and not static and params and (
+                    isinstance(fn, ast.Attribute) or callee.name == '__init__'):
+                params = params[1:]
+            cenv = {p: _UNK for p in params}
+            cenv.update(dict(zip(params, args)))
+            cenv.update({k: v for k, v in kws.items() if k})
+            if callee.name == '__init__':
+                self.run(callee, cenv)
+                return _UNK
+            return self.run(callee, cenv)
+        return _UNKT if taint else _UNK
+
+    @staticmethod
+    def _deep_param(v):
+        return v == _PARAM
+
+    def _is_class(self, f, t):
+        r = self.prog.resolve(f.module, t) if isinstance(
+            t, (ast.Name, ast.Attribute)) else None
+        return bool(r) and r[0] == 'class'
+
+    def _is_ro(self, f, fn):
+        if not isinstance(fn, (ast.Name, ast.Attribute)):
+            return False
+        li = self._li.get(id(f.node))
+        if li is None:
+            li = self._li[id(f.node)] = f.module.local_imports(f.node)
+        r = self.prog.resolve(f.module, fn, li)
+        for _ in range(3):
+            if r and r[0] == 'const' and len(r[2]) == 1 and \
+                    isinstance(r[2][0], ast.Name):
+                r = self.prog.lookup(r[1], r[2][0].id)
+        return bool(r) and r[0] == 'class' and r[1] is self.ro_cls
+
+    def _ro_site(self, f, call, env):
+        occ = kwarg(call, 'occupation')
+        if occ is None:
+            d = kwarg(call, 'from_dict', 0)
+            if isinstance(d, ast.Dict):
+                for k, v in zip(d.keys, d.values):
+                    if isinstance(k, ast.Constant) and \
+                            k.value == 'occupation':
+                        occ = v
+        if occ is None:
+            return
+        saved, self.touched = self.touched, set()
+        v = self.ev(f, occ, env)
+        touched, self.touched = self.touched, saved
+        if saved is not None:
+            saved |= touched
+        if not touched and not self.tainted(v):
+            return                     # not computed from a node-list entry
+        if self.record:
+            s = self.sites.setdefault(id(call), [f, call, occ, set(), []])
+            s[3] |= touched
+            s[4].append(v)
+
+    # -- statements -----------------------------------------------------------
+    def bind(self, target, v, env):
+        if isinstance(target, ast.Name):
+            if v[0] == 'c' and env.get('$pc'):
+                v = ('ct', v[1], env['$pc'][1])
+            env[target.id] = v
+        elif isinstance(target, (ast.Tuple, ast.List)):
+            if v[0] == 'tup' and len(v[1]) == len(target.elts) and not any(
+                    isinstance(t, ast.Starred) for t in target.elts):
+                for t, x in zip(target.elts, v[1]):
+                    self.bind(t, x, env)
+            else:
+                x = self.elem(v)
+                for t in target.elts:
+                    self.bind(t.value if isinstance(t, ast.Starred) else t,
+                              x, env)
+
+    def _node_tf(self, f):
+        def tf(n, env):
+            a = n.ast
+            if n.kind == 'stmt':
+                env = dict(env)
+                if isinstance(a, (ast.Assign, ast.AnnAssign)):
+                    if a.value is not None:
+                        v = self.ev(f, a.value, env)
+                        tg = a.targets if isinstance(a, ast.Assign) \
+                            else [a.target]
+                        for t in tg:
+                            self.bind(t, v, env)
+                elif isinstance(a, ast.AugAssign):
+                    v = self.ev(f, ast.BinOp(left=_load(a.target), op=a.op,
+                                             right=a.value), env)
+                    self.bind(a.target, v, env)
+                elif isinstance(a, ast.Return):
+                    v = self.ev(f, a.value, env) if a.value is not None \
+                        else ('c', None)
+                    env['return'] = self.join(env.get('return', _BOT), v)
+                elif isinstance(a, (ast.Expr, ast.Assert)):
+                    self.ev(f, a.value if isinstance(a, ast.Expr) else a.test,
+                            env)
+                elif isinstance(a, ast.expr):
+                    self.ev(f, a, env)           # match subject
+                return env
+            if n.kind == 'with':
+                env = dict(env)
+                for i in a.items:
+                    v = self.ev(f, i.context_expr, env)
+                    if i.optional_vars is not None:
+                        self.bind(i.optional_vars,
+                                  _UNKT if self._deep_taint(v) else _UNK, env)
+                return env
+            if n.kind == 'handler' and getattr(a, 'name', None):
+                env = dict(env)
+                env[a.name] = _UNK
+            return env
+        return tf
+
+    def _edge_tf(self, f):
+        def tf(n, e, env):
+            if n.kind == 'test' and e.label in ('T', 'F'):
+                env2 = dict(env)
+                v = self.ev(f, n.ast, env2)
+                t = self.truth(v)
+                if t is not None and (e.label == 'T') != t:
+                    return None
+                if v[0] == 'ct':
+                    # this branch is taken because an entry is DOWN
+                    env2['$pc'] = ('pc', v[2])
+                return env2
+            if n.kind == 'for' and e.label == 'iter':
+                env = dict(env)
+                self.bind(n.ast.target, self.elem(self.ev(f, n.ast.iter, env)),
+                          env)
+            return env
+        return tf
+
+    def run(self, f, env0):
+        """abstract run of f; returns the joined return value"""
+        g = cfg_of(f)
+        self.stack.append(f)
+        saved, self.record = self.record, False
+        try:
+            ntf, etf = self._node_tf(f), self._edge_tf(f)
+            IN = _forward(g, dict(env0), ntf, etf, self.join_env)
+            self.record = saved
+            ret = _BOT
+            # final pass over the fixpoint: sites are recorded with the
+            # converged environments only
+            for nid, env in IN.items():
+                n = g.nodes[nid]
+                post = ntf(n, env)
+                for e in g.succ[nid]:
+                    if e.label != 'exc':
+                        etf(n, e, post)
+                if n.kind == 'stmt' and isinstance(n.ast, ast.Return):
+                    ret = self.join(ret, post.get('return', _BOT))
+            if g.exit.id in IN and ret == _BOT:
+                ret = ('c', None)
+            return ret
+        finally:
+            self.record = saved
+            self.stack.pop()
+
+
+def _load(target):
+    import copy
+    t = copy.deepcopy(target)
+    for n in ast.walk(t):
+        if hasattr(n, 'ctx'):
+            n.ctx = ast.Load()
+    return t
+
+
+def r01_13(prog, rep, rid='R01.13'):
+    rep.rule(rid, 'resource_config.Node: an entry of the node dict\'s cores / '
+             'gpus list that is rpc.DOWN is wrapped into RO(occupation=DOWN) '
+             '(passed through or mapped to DOWN; never collapsed to a number '
+             'by `or`, float(), a conditional default)', minimum=2)
+    free, busy, down = consts(prog)
+    node = prog.cls(*NODE)
+    ro = prog.cls(NODE[0], 'RO')
+    mk = _Marker(prog, ro, down)
+    mk.record = True
+    klasses = [node] + [k for k in prog.subclasses(node, strict=True)
+                        if k is not node]
+    for K in klasses:
+        for mname, f in sorted(K.methods.items()):
+            if not isinstance(f.node, ast.FunctionDef):
+                continue
+            params = [p for p in f.params]
+            static = any(dotted(d) == 'staticmethod'
+                         for d in f.node.decorator_list)
+            env = {p: _PARAM for p in (params if static else params[1:])}
+            mk.run(f, env)
+    for f, call, occ, keys, vals in sorted(
+            mk.sites.values(), key=lambda s: (s[0].where, s[1].lineno,
+                                              s[1].col_offset)):
+        rep.saw(f)
+        key = '/'.join(sorted(keys)) or '*'
+        lost = [v for v in vals if not mk.is_down(v) and v != _RAISE
+                and v != _UNKT]
+        what = "%s: RO(occupation=%s) built from an entry of the node " \
+            "dict's %s list keeps rpc.DOWN" % (f.qual, short(occ, 40), key)
+        if lost:
+            v = lost[0]
+            shown = repr(v[1]) if v[0] in ('c', 'ct') else 'a number'
+            rep.bad(rid, f, '%s:RO:%s' % (f.qual, key),
+                    "%s wraps the entries of the node dict's %s list into "
+                    "RO(occupation=%s): for an entry that is rpc.DOWN (%r, a "
+                    "blocked core/gpu) this evaluates to %s instead of DOWN, "
+                    "so on the application side the blocked resource looks "
+                    "%s; Node.find_slot (`occupation is DOWN: continue`) and "
+                    "allocate_slot no longer skip / refuse it"
+                    % (f.qual, key, short(occ, 50), down, shown,
+                       'FREE' if v[0] in ('c', 'ct') and v[1] == free else
+                       'like a usable one'), f.loc(call),
+                    history="resource config blocks cores [0, 2]: the agent's "
+                    "node_list carries rpc.DOWN at these indexes; "
+                    "Pilot.nodelist builds Node(node) from it and "
+                    "nodelist.find_slots(RankRequirements(n_cores=1)) hands "
+                    "out core 0 of node 0")
+        elif _UNKT in vals:
+            raise AnalysisError(
+                'UNRECOGNISED-IDIOM %s: cannot decide what RO(occupation=%s) '
+                'is for an entry that is rpc.DOWN' % (f.where, short(occ, 50)))
+        else:
+            rep.ok(rid, f, what, f.loc(call))
+
+
+# ------------------------------------------------------------------------------
 #
 def run(prog, rep, tier):
     rep.decided = ('single writer of node occupancy (only _change_slot_states '
@@ -1282,7 +2361,9 @@ def run(prog, rep, tier):
         'index is guarded by a free/share test and the cursor/tally is '
         'advanced between picks; blocked cores/gpus are DOWN before the list '
         'is filtered; agent/service nodes are moved out of the list; Node '
-        '(application-level finder) writes under its lock and tests lfs/mem.')
+        '(application-level finder) writes under its lock and tests lfs/mem; '
+        'the lfs/mem cap of the slot count can only be bypassed by a zero '
+        'request; Node() keeps the DOWN marker of blocked cores/gpus.')
     rep.undecided = ('arithmetic adequacy of slots_per_node for all numeric '
         'inputs; overlapping application-supplied placements (known finding '
         'K1); real interleavings of the scheduler process and its callbacks.')
@@ -1304,6 +2385,8 @@ def run(prog, rep, tier):
     rep.attempt(r01_9, prog, rep)
     rep.attempt(r01_10, prog, rep)
     rep.attempt(r02_8, prog, rep, rid='R01.11')
+    rep.attempt(r01_12, prog, rep)
+    rep.attempt(r01_13, prog, rep)
     if tier == 'thorough':
         # sweep: the single-writer rule over every scheduler class that
         # inherits the node-list representation
@@ -1411,6 +2494,40 @@ MUTATIONS = [
         (_C, "        while iterator_count < len(self.nodes):", "        while iterator_count <= len(self.nodes):")]),
     dict(name='R01.11 jsrun iterator counts in steps of zero', rules=('R01.11',), edits=[
         (_J, "            iterator_count    += 1\n", "            iterator_count    += 0\n")]),
+    dict(name='R01.12 lfs/mem cap skipped when the node has exactly 0 left (seed C01-c)', rules=('R01.12',), edits=[
+        (_C, "        if lfs_per_slot:\n            max_slots = min(max_slots, int(node['lfs'] // lfs_per_slot))\n",
+             "        if lfs_per_slot and node['lfs']:\n            max_slots = min(max_slots, int(node['lfs'] // lfs_per_slot))\n"),
+        (_C, "        if mem_per_slot:\n            max_slots = min(max_slots, int(node['mem'] // mem_per_slot))\n",
+             "        if mem_per_slot and node['mem']:\n            max_slots = min(max_slots, int(node['mem'] // mem_per_slot))\n")]),
+    dict(name='R01.12 jsrun: mem cap only when the node reports free mem', rules=('R01.12',), edits=[
+        (_J, "        if mem_per_slot:\n            alc_slots = min(alc_slots, int(m.floor(free_mem / mem_per_slot)))\n",
+             "        if mem_per_slot:\n            if free_mem > 0:\n                alc_slots = min(alc_slots, int(m.floor(free_mem / mem_per_slot)))\n")]),
+    dict(name='R01.12 lfs cap not applied to partial searches', rules=('R01.12',), edits=[
+        (_C, "        if lfs_per_slot:\n            max_slots = min(max_slots, int(node['lfs'] // lfs_per_slot))\n",
+             "        if lfs_per_slot and not partial:\n            max_slots = min(max_slots, int(node['lfs'] // lfs_per_slot))\n")]),
+    dict(name='R01.12 capped slot count raised to at least one afterwards', rules=('R01.12',), edits=[
+        (_C, "        if mem_per_slot:\n            max_slots = min(max_slots, int(node['mem'] // mem_per_slot))\n",
+             "        if mem_per_slot:\n            max_slots = min(max_slots, int(node['mem'] // mem_per_slot))\n        max_slots = max(max_slots, 1)\n")]),
+    dict(name='R01.12 jsrun: lfs quotient rounded up', rules=('R01.12',), edits=[
+        (_J, "        if lfs_per_slot:\n            alc_slots = min(alc_slots, int(m.floor(free_lfs / lfs_per_slot)))\n",
+             "        if lfs_per_slot:\n            alc_slots = min(alc_slots, int(m.ceil(free_lfs / lfs_per_slot)))\n")]),
+    dict(name='R01.13 Node() casts occupancy with float(o or 0) (seed C01-d)', rules=('R01.13',), edits=[
+        (_N, "                from_dict['cores'] = [RO(index=i, occupation=o)\n                                                    for i,o in enumerate(cores)]\n",
+             "                from_dict['cores'] = [RO(index=i, occupation=float(o or 0))\n                                                    for i,o in enumerate(cores)]\n"),
+        (_N, "                from_dict['gpus'] = [RO(index=i, occupation=o)\n                                                     for i,o in enumerate(gpus)]\n",
+             "                from_dict['gpus'] = [RO(index=i, occupation=float(o or 0))\n                                                     for i,o in enumerate(gpus)]\n")]),
+    dict(name='R01.13 Node() defaults a missing gpu occupancy to 0.0', rules=('R01.13',), edits=[
+        (_N, "                from_dict['gpus'] = [RO(index=i, occupation=o)\n                                                     for i,o in enumerate(gpus)]\n",
+             "                from_dict['gpus'] = [RO(index=i, occupation=o if o is not None else 0.0)\n                                                     for i,o in enumerate(gpus)]\n")]),
+    dict(name='R01.13 Node() loop form: DOWN entry replaced by FREE before wrapping', rules=('R01.13',), edits=[
+        (_N, "                from_dict['cores'] = [RO(index=i, occupation=o)\n                                                    for i,o in enumerate(cores)]\n",
+             "                ros = list()\n                for i,o in enumerate(cores):\n                    if o is None:\n                        o = 0.0\n                    ros.append(RO(index=i, occupation=o))\n                from_dict['cores'] = ros\n")]),
+    dict(name='R01.13 Node() cleans the core list with `c or 0.0` before wrapping', rules=('R01.13',), edits=[
+        (_N, "        cores = from_dict.get('cores')\n        gpus  = from_dict.get('gpus')\n\n        if cores:\n            if not isinstance(cores[0], RO):\n",
+             "        cores = from_dict.get('cores')\n        gpus  = from_dict.get('gpus')\n\n        if cores:\n            if not isinstance(cores[0], RO):\n                cores = [c or 0.0 for c in cores]\n")]),
+    dict(name='R01.12 limits list: lfs limit appended only when the node reports lfs', rules=('R01.12',), edits=[
+        (_C, "        max_slots = n_slots\n        if lfs_per_slot:\n            max_slots = min(max_slots, int(node['lfs'] // lfs_per_slot))\n        if mem_per_slot:\n            max_slots = min(max_slots, int(node['mem'] // mem_per_slot))\n",
+             "        limits = [n_slots]\n        if lfs_per_slot and node['lfs']:\n            limits.append(int(node['lfs'] // lfs_per_slot))\n        if mem_per_slot:\n            limits.append(int(node['mem'] // mem_per_slot))\n        max_slots = min(limits)\n")]),
 ]
 
 SILENT = [
@@ -1445,4 +2562,47 @@ SILENT = [
         (_C, "        iterator_count = 0\n\n        while iterator_count < len(self.nodes):\n            yield self.nodes[self._node_offset]\n            iterator_count    += 1\n", "        n_nodes = len(self.nodes)\n        for _ in range(n_nodes):\n            yield self.nodes[self._node_offset]\n")]),
     dict(name='tally accumulated with +=', edits=[
         (_C, "                        gpu_shares[gpu_idx] = gpus_per_slot + \\\n                                              gpu_shares.get(gpu_idx, 0.0)\n", "                        gpu_shares.setdefault(gpu_idx, 0.0)\n                        gpu_shares[gpu_idx] += gpus_per_slot\n")]),
+    dict(name='lfs cap with hoisted quotient and aliased free amount', edits=[
+        (_C, "        if lfs_per_slot:\n            max_slots = min(max_slots, int(node['lfs'] // lfs_per_slot))\n",
+             "        free_lfs = node['lfs']\n        if lfs_per_slot:\n            by_lfs    = int(free_lfs // lfs_per_slot)\n            max_slots = min(max_slots, by_lfs)\n")]),
+    dict(name='lfs cap guarded by `> 0`, min over a list', edits=[
+        (_C, "        if lfs_per_slot:\n            max_slots = min(max_slots, int(node['lfs'] // lfs_per_slot))\n",
+             "        if lfs_per_slot > 0:\n            max_slots = min([max_slots, int(node['lfs'] // lfs_per_slot)])\n")]),
+    dict(name='mem cap in the else branch of a negated request test', edits=[
+        (_C, "        if mem_per_slot:\n            max_slots = min(max_slots, int(node['mem'] // mem_per_slot))\n",
+             "        if not mem_per_slot:\n            pass\n        else:\n            max_slots = min(max_slots, int(node['mem'] // mem_per_slot))\n")]),
+    dict(name='lfs cap as a conditional expression', edits=[
+        (_C, "        if lfs_per_slot:\n            max_slots = min(max_slots, int(node['lfs'] // lfs_per_slot))\n",
+             "        max_slots = min(max_slots, int(node['lfs'] // lfs_per_slot)) \\\n                    if lfs_per_slot else max_slots\n")]),
+    dict(name='slot-collecting loop as while True with a break on the cap', edits=[
+        (_C, "        while len(slots) < max_slots:\n", "        while True:\n\n            if len(slots) >= max_slots:\n                break\n")]),
+    dict(name='lfs/mem caps extracted into a helper method', edits=[
+        (_C, "        max_slots = n_slots\n        if lfs_per_slot:\n            max_slots = min(max_slots, int(node['lfs'] // lfs_per_slot))\n        if mem_per_slot:\n            max_slots = min(max_slots, int(node['mem'] // mem_per_slot))\n",
+             "        max_slots = self._max_slots(node, n_slots, lfs_per_slot, mem_per_slot)\n"),
+        (_C, "    # --------------------------------------------------------------------------\n    #\n    def _find_resources(self, node, n_slots, cores_per_slot,\n",
+             "    def _max_slots(self, node, wanted, lfs, mem):\n        res = wanted\n        if lfs:\n            res = min(res, int(node['lfs'] // lfs))\n        if mem:\n            res = min(res, int(node['mem'] // mem))\n        return res\n\n    # --------------------------------------------------------------------------\n    #\n    def _find_resources(self, node, n_slots, cores_per_slot,\n")]),
+    dict(name='jsrun: mem cap before lfs cap', edits=[
+        (_J, "        if lfs_per_slot:\n            alc_slots = min(alc_slots, int(m.floor(free_lfs / lfs_per_slot)))\n\n        if mem_per_slot:\n            alc_slots = min(alc_slots, int(m.floor(free_mem / mem_per_slot)))\n", "        if mem_per_slot:\n            alc_slots = min(alc_slots, int(m.floor(free_mem / mem_per_slot)))\n\n        if lfs_per_slot:\n            alc_slots = min(alc_slots, int(m.floor(free_lfs / lfs_per_slot)))\n")]),
+    dict(name='Node() wraps the core list in an explicit loop, renamed locals', edits=[
+        (_N, "                from_dict['cores'] = [RO(index=i, occupation=o)\n                                                    for i,o in enumerate(cores)]\n",
+             "                wrapped = list()\n                for pos, occ in enumerate(cores):\n                    wrapped.append(RO(index=pos, occupation=occ))\n                from_dict['cores'] = wrapped\n")]),
+    dict(name='Node() casts occupancy to float but keeps DOWN', edits=[
+        (_N, "                from_dict['cores'] = [RO(index=i, occupation=o)\n                                                    for i,o in enumerate(cores)]\n",
+             "                from_dict['cores'] = [RO(index=i, occupation=None if o is None else float(o))\n                                                    for i,o in enumerate(cores)]\n"),
+        (_N, "                from_dict['gpus'] = [RO(index=i, occupation=o)\n                                                     for i,o in enumerate(gpus)]\n",
+             "                from_dict['gpus'] = [RO(index=i, occupation=o if o is DOWN else float(o))\n                                                     for i,o in enumerate(gpus)]\n")]),
+    dict(name='Node() wraps both lists through a helper', edits=[
+        (_N, "                from_dict['cores'] = [RO(index=i, occupation=o)\n                                                    for i,o in enumerate(cores)]\n", "                from_dict['cores'] = self._wrap(cores)\n"),
+        (_N, "                from_dict['gpus'] = [RO(index=i, occupation=o)\n                                                     for i,o in enumerate(gpus)]\n", "                from_dict['gpus'] = self._wrap(gpus)\n"),
+        (_N, "    # --------------------------------------------------------------------------\n    #\n    def _get_core_index(self, ro):\n",
+             "    @staticmethod\n    def _wrap(values):\n        return [RO(index=idx, occupation=val) for idx, val in enumerate(values)]\n\n    # --------------------------------------------------------------------------\n    #\n    def _get_core_index(self, ro):\n")]),
+    dict(name='Node() indexes the gpu list instead of enumerating it', edits=[
+        (_N, "                from_dict['gpus'] = [RO(index=i, occupation=o)\n                                                     for i,o in enumerate(gpus)]\n",
+             "                from_dict['gpus'] = [RO(index=i, occupation=gpus[i])\n                                                     for i in range(len(gpus))]\n")]),
+    dict(name='lfs/mem limits collected in a list, min() taken once', edits=[
+        (_C, "        max_slots = n_slots\n        if lfs_per_slot:\n            max_slots = min(max_slots, int(node['lfs'] // lfs_per_slot))\n        if mem_per_slot:\n            max_slots = min(max_slots, int(node['mem'] // mem_per_slot))\n",
+             "        limits = [n_slots]\n        if lfs_per_slot:\n            limits.append(int(node['lfs'] // lfs_per_slot))\n        if mem_per_slot:\n            limits.append(int(node['mem'] // mem_per_slot))\n        max_slots = min(limits)\n")]),
+    dict(name='jsrun: node lookup in early-continue form', edits=[
+        (_J, "                if node['index'] == slot['node_index']:\n                    node_found = True\n                    break\n",
+             "                if node['index'] != slot['node_index']:\n                    continue\n                node_found = True\n                break\n")]),
 ]
